@@ -42,3 +42,100 @@ package bigslice
 //@   ensures  result == exists(i, 0, len(p), exclusivePragma(p[i]))
 //@   modifies nothing
 //@   loop 1 invariant forall(i, 0, range_idx, !exclusivePragma(p[i]))
+
+// ---- C18: constructors accept exactly their documented schema ----
+//
+// Each constructor panics iff its schema (stated here from the documentation, over the column types of the input
+// slice and the parameter/result types of the function value) is violated, and every panic carries a
+// *typecheck.Error. Vocabulary (tyNumOut/tyOut/tyPrefix, fnIn/fnOut/fnVariadic, applies, sameColumns, vectorized,
+// canHash/canCompare) is in /verif/trusted/typecheck.contracts and /repo/typecheck/zz_verif_contracts.go.
+
+//@ spec func keysCombinable(t slicetype.Type) bool = forall(i, 0, tyPrefix(t), canHash(tyOut(t, i)) && canCompare(tyOut(t, i)))
+//@ spec func wfSliceType(t slicetype.Type) bool = t != nil && 0 <= tyPrefix(t) && tyPrefix(t) <= tyNumOut(t)
+
+//@ func bigslice.canMakeCombiningFrame (typ) (err)
+//@   requires wfSliceType(typ)
+//@   ensures  decides: (err == nil) == keysCombinable(typ)
+//@   modifies nothing
+//@   loop 1 invariant 0 <= i && i <= tyPrefix(typ) && (failingTypes == nil || fresh(failingTypes)) && (len(failingTypes) == 0) == forall(j, 0, i, canHash(tyOut(typ, j)) && canCompare(tyOut(typ, j)))
+
+//@ func bigslice.canMakeAccumulatorForKey (keyType) (ok)
+//@   requires keyType != nil
+//@   ensures  ok == (rtKind(keyType) == reflect.String || rtKind(keyType) == reflect.Int || rtKind(keyType) == reflect.Int64)
+//@   modifies nothing
+
+// Map(Slice<t1..tn>, func(t1..tn) (r1..rm)) Slice<r1..rm>, m >= 1
+//@ func bigslice.Map (slice, fn, prags) (out)
+//@   requires wfSliceType(slice)
+//@   panics_if !(isFuncValue(fn) && applies(fnIn(fn), fnVariadic(fn), slice) && tyNumOut(fnOut(fn)) >= 1)
+//@   panic_ensures typecheck-error: hastype(panicval, *typecheck.Error)
+//@   ensures  result: hastype(out, *mapSlice) && unbox(out, *mapSlice).fval.Out == fnOut(fn) && unbox(out, *mapSlice).Slice == slice
+//@   modifies nothing
+
+// Filter(Slice<t1..tn>, func(t1..tn) bool) Slice<t1..tn>
+//@ func bigslice.Filter (slice, pred, prags) (out)
+//@   requires wfSliceType(slice)
+//@   panics_if !(isFuncValue(pred) && applies(fnIn(pred), fnVariadic(pred), slice) && tyNumOut(fnOut(pred)) == 1 && rtKind(tyOut(fnOut(pred), 0)) == reflect.Bool)
+//@   panic_ensures typecheck-error: hastype(panicval, *typecheck.Error)
+//@   ensures  result: hastype(out, *filterSlice) && unbox(out, *filterSlice).Slice == slice
+//@   modifies nothing
+
+// Flatmap(Slice<t1..tn>, func(t1..tn) ([]r1..[]rm)) Slice<r1..rm>
+//@ func bigslice.Flatmap (slice, fn, prags) (out)
+//@   requires wfSliceType(slice)
+//@   panics_if !(isFuncValue(fn) && applies(fnIn(fn), fnVariadic(fn), slice) && vectorized(fnOut(fn)))
+//@   panic_ensures typecheck-error: hastype(panicval, *typecheck.Error)
+//@   ensures  result: hastype(out, *flatmapSlice) && unbox(out, *flatmapSlice).Slice == slice && tyNumOut(unbox(out, *flatmapSlice).out) == tyNumOut(fnOut(fn)) && forall(i, 0, tyNumOut(fnOut(fn)), tyOut(unbox(out, *flatmapSlice).out, i) == rtElem(tyOut(fnOut(fn), i)))
+//@   modifies nothing
+
+// Fold(Slice<t1..tn>, func(acc, t2..tn) acc) Slice<t1, acc>: n >= 2, t1 hashable and one of string/int/int64
+//@ spec func foldSchema(slice slicetype.Type, fold any) bool = tyNumOut(slice) >= 2 && canHash(tyOut(slice, 0)) && (rtKind(tyOut(slice, 0)) == reflect.String || rtKind(tyOut(slice, 0)) == reflect.Int || rtKind(tyOut(slice, 0)) == reflect.Int64) && isFuncValue(fold) && tyNumOut(fnOut(fold)) == 1 && tyNumOut(fnIn(fold)) == tyNumOut(slice) && tyOut(fnIn(fold), 0) == tyOut(fnOut(fold), 0) && forall(i, 1, tyNumOut(slice), tyOut(fnIn(fold), i) == tyOut(slice, i))
+//@ func bigslice.Fold (slice, fold) (out)
+//@   requires wfSliceType(slice)
+//@   panics_if !foldSchema(slice, fold)
+//@   panic_ensures typecheck-error: hastype(panicval, *typecheck.Error)
+//@   ensures  result: hastype(out, *foldSlice) && unbox(out, *foldSlice).Slice == slice && tyNumOut(unbox(out, *foldSlice).out) == 2 && tyOut(unbox(out, *foldSlice).out, 0) == tyOut(slice, 0) && tyOut(unbox(out, *foldSlice).out, 1) == tyOut(fnOut(fold), 0)
+//@   ensures  shuffles-by-key: unbox(out, *foldSlice).dep.Shuffle && unbox(out, *foldSlice).dep.Slice == slice
+//@   modifies nothing
+
+// Prefixed(slice, k): 1 <= k <= number of columns
+//@ func bigslice.Prefixed (slice, prefix) (out)
+//@   requires wfSliceType(slice)
+//@   panics_if prefix < 1 || prefix > tyNumOut(slice)
+//@   panic_ensures typecheck-error: hastype(panicval, *typecheck.Error)
+//@   ensures  result: hastype(out, *prefixSlice) && unbox(out, *prefixSlice).prefix == prefix && unbox(out, *prefixSlice).Slice == slice
+//@   modifies nothing
+
+// Reduce(Slice<k1..kp, v>, func(v, v) v): exactly one residual column, combinable keys
+//@ spec func reduceSchema(slice slicetype.Type, reduce any) bool = tyNumOut(slice) - tyPrefix(slice) == 1 && keysCombinable(slice) && isFuncValue(reduce) && tyNumOut(fnIn(reduce)) == 2 && tyOut(fnIn(reduce), 0) == tyOut(slice, tyNumOut(slice) - 1) && tyOut(fnIn(reduce), 1) == tyOut(slice, tyNumOut(slice) - 1) && tyNumOut(fnOut(reduce)) == 1 && tyOut(fnOut(reduce), 0) == tyOut(slice, tyNumOut(slice) - 1)
+//@ func bigslice.Reduce (slice, reduce) (out)
+//@   requires wfSliceType(slice)
+//@   panics_if !reduceSchema(slice, reduce)
+//@   panic_ensures typecheck-error: hastype(panicval, *typecheck.Error)
+//@   ensures  result: hastype(out, *reduceSlice) && unbox(out, *reduceSlice).Slice == slice
+//@   modifies nothing
+
+//@ func bigslice.Reshuffle (slice) (out)
+//@   requires wfSliceType(slice)
+//@   panics_if !keysCombinable(slice)
+//@   panic_ensures typecheck-error: hastype(panicval, *typecheck.Error)
+//@   ensures  result: hastype(out, *reshuffleSlice) && unbox(out, *reshuffleSlice).Slice == slice && unbox(out, *reshuffleSlice).partitioner == nil
+//@   modifies nothing
+
+// Reshard(slice, n): keys must be combinable whatever n is; the input itself is returned when it already has n shards
+//@ func bigslice.Reshard (slice, nshard) (out)
+//@   requires wfSliceType(slice)
+//@   panics_if !keysCombinable(slice)
+//@   panic_ensures typecheck-error: hastype(panicval, *typecheck.Error)
+//@   ensures  result: ite(slNumShard(slice) == nshard, out == slice, hastype(out, *reshardSlice) && unbox(out, *reshardSlice).Slice == slice && unbox(out, *reshardSlice).nshard == nshard)
+//@   modifies nothing
+
+// Repartition(Slice<t1..tn>, func(nshard int, t1..tn) int) Slice<t1..tn>
+//@ spec func repartitionSchema(slice slicetype.Type, fn any) bool = isFuncValue(fn) && tyNumOut(fnIn(fn)) == tyNumOut(slice) + 1 && tyOut(fnIn(fn), 0) == typeOfInt && forall(i, 0, tyNumOut(slice), tyOut(fnIn(fn), i + 1) == tyOut(slice, i)) && tyNumOut(fnOut(fn)) == 1 && tyOut(fnOut(fn), 0) == typeOfInt
+//@ func bigslice.Repartition (slice, partition) (out)
+//@   requires wfSliceType(slice)
+//@   requires package-initialised: sliceTypeInt != nil && tyNumOut(sliceTypeInt) == 1 && tyOut(sliceTypeInt, 0) == typeOfInt
+//@   panics_if !repartitionSchema(slice, partition)
+//@   panic_ensures typecheck-error: hastype(panicval, *typecheck.Error)
+//@   ensures  result: hastype(out, *reshuffleSlice) && unbox(out, *reshuffleSlice).Slice == slice && unbox(out, *reshuffleSlice).partitioner != nil
+//@   modifies nothing
